@@ -455,6 +455,12 @@ import rs2v_clientfold  # noqa: E402
 GENERATORS["ClientFoldTie.v"] = lambda: rs2v_clientfold.gen_clientfold_tie(read, strip_comments, match_brace, TieError)
 
 
+# ---------------------------------------------------------------- C15: client life cycle (tools/rs2v_clientlife.py)
+import rs2v_clientlife  # noqa: E402
+
+GENERATORS["ClientLifeSig.v"] = lambda: rs2v_clientlife.gen_clientlife_sig(read, strip_comments, match_brace, TieError)
+
+
 # ---------------------------------------------------------------- C18/C17: schema grammar tokens (tools/rs2v_schema.py)
 
 def gen_grammar_tokens():
@@ -464,6 +470,12 @@ def gen_grammar_tokens():
 
 
 GENERATORS["GrammarTokens.v"] = gen_grammar_tokens
+
+
+# ---------------------------------------------------------------- C06: client view (tools/rs2v_client.py)
+import rs2v_client  # noqa: E402
+
+GENERATORS["ClientConsts.v"] = lambda: rs2v_client.gen_client_consts(read, strip_comments, match_brace, TieError)
 
 
 def main():
